@@ -48,6 +48,10 @@ Section NonceAead.
      (x/crypto chacha20poly1305) when len(ciphertext) > open_max *)
   Variable seal_max : N.
   Variable open_max : option N.
+  (* Tink's own bound on len(ciphertext||tag), checked right before Open and
+     answered with an error (internalaead.CheckChaCha20Poly1305CiphertextSize);
+     None = no such check (AES-GCM: crypto/cipher's Open returns an error itself) *)
+  Variable ct_max : option N.
 
   Definition seal_o (key iv ad p : bytes) : outcome bytes :=
     if seal_max <? lenN p then Panic else Ok (seal key iv ad p).
@@ -58,6 +62,12 @@ Section NonceAead.
          | Some m => if m <? lenN c then Panic else of_open (open_ key iv ad c)
          | None => of_open (open_ key iv ad c)
          end.
+
+  Definition open_t (key iv ad c : bytes) : outcome bytes :=
+    match ct_max with
+    | Some m => if m <? lenN c then Err else open_o key iv ad c
+    | None => open_o key iv ad c
+    end.
 
   (* Encrypt with the IV the tape supplies:
        if len(plaintext) > <tink bound> { return error }
@@ -79,7 +89,7 @@ Section NonceAead.
       else bind (slice pl (pl + ivlen) c) (fun iv =>
            bind (slice (pl + ivlen) (length c) c) (fun cwt =>
            bind (make_cap (length cwt) taglen) (fun _ =>
-           open_o key iv ad cwt)))).
+           open_t key iv ad cwt)))).
 
   (* chacha20poly1305.fullAEAD.Decrypt: HasPrefix, slice, length check, slices, Open *)
   Definition na_dec_prefixfirst (prefix key c ad : bytes) : outcome bytes :=
@@ -89,7 +99,7 @@ Section NonceAead.
       if Nat.ltb (length cnp) (ivlen + taglen) then Err
       else bind (slice 0 ivlen cnp) (fun nonce =>
            bind (slice ivlen (length cnp) cnp) (fun cat =>
-           open_o key nonce ad cat))).
+           open_t key nonce ad cat))).
 
   (* xchacha20poly1305.aead.Decrypt: length check (min, then max = MaxInt), HasPrefix, slices, Open *)
   Definition na_dec_lenprefix (prefix key c ad : bytes) : outcome bytes :=
@@ -100,13 +110,13 @@ Section NonceAead.
     else bind (slice pl (length c) c) (fun cnp =>
          bind (slice 0 ivlen cnp) (fun nonce =>
          bind (slice ivlen (length cnp) cnp) (fun cat =>
-         open_o key nonce ad cat))).
+         open_t key nonce ad cat))).
 
   (* the three bodies compute this function (proved) *)
   Definition na_dec_canon (prefix key c ad : bytes) : outcome bytes :=
     let pl := length prefix in
     if Nat.leb (pl + ivlen + taglen) (length c) && beq (firstn pl c) prefix then
-      open_o key (firstn ivlen (skipn pl c)) ad (skipn (pl + ivlen) c)
+      open_t key (firstn ivlen (skipn pl c)) ad (skipn (pl + ivlen) c)
     else Err.
 End NonceAead.
 
@@ -118,11 +128,15 @@ Definition gcm_tink_max : N := N.min (MaxInt - 12 - 16) (2 ^ 36 - 31).
 (* x/crypto chacha20poly1305: Seal panics above 2^38-64, Open above 2^38-48 *)
 Definition chacha_seal_max : N := 2 ^ 38 - 64.
 Definition chacha_open_max : N := 2 ^ 38 - 48.
-(* chacha20poly1305.fullAEAD.Encrypt: MaxInt - len(prefix) - NonceSize - Overhead;
-   xchacha20poly1305 / subtle: MaxInt - NonceSize(X) - Overhead *)
-Definition chacha_tink_max (prefix : bytes) : N := MaxInt - lenN prefix - 12 - 16.
-Definition chacha_subtle_tink_max : N := MaxInt - 12 - 16.
-Definition xchacha_tink_max : N := MaxInt - 24 - 16.
+(* internal/aead/chacha20poly1305.go: CheckChaCha20Poly1305SealSize / ...CiphertextSize *)
+Definition chacha_tink_seal_max : N := 2 ^ 38 - 64.
+Definition chacha_tink_ct_max : N := 2 ^ 38 - 48.
+(* Encrypt makes two successive checks, each returning an error:
+   len(p) > MaxInt - len(prefix) - NonceSize - Overhead  (xchacha / subtle: without the prefix),
+   then CheckChaCha20Poly1305SealSize; together: len(p) > min of the two bounds *)
+Definition chacha_tink_max (prefix : bytes) : N := N.min (MaxInt - lenN prefix - 12 - 16) chacha_tink_seal_max.
+Definition chacha_subtle_tink_max : N := N.min (MaxInt - 12 - 16) chacha_tink_seal_max.
+Definition xchacha_tink_max : N := N.min (MaxInt - 24 - 16) chacha_tink_seal_max.
 
 Section Instances.
   Variable gcm_seal : bytes -> bytes -> bytes -> bytes -> bytes.
@@ -134,26 +148,32 @@ Section Instances.
 
   (* aead/aesgcm (and aead/subtle.AESGCM = the same object with an empty prefix) *)
   Definition aesgcm_enc := na_enc gcm_seal gcm_seal_max gcm_tink_max.
-  Definition aesgcm_dec := na_dec_lenfirst gcm_open 12 16 None.
+  Definition aesgcm_dec := na_dec_lenfirst gcm_open 12 16 None None.
 
   (* aead/chacha20poly1305 *)
   Definition chacha_enc (prefix : bytes) := na_enc cc_seal chacha_seal_max (chacha_tink_max prefix) prefix.
-  Definition chacha_dec := na_dec_prefixfirst cc_open 12 16 (Some chacha_open_max).
+  Definition chacha_dec := na_dec_prefixfirst cc_open 12 16 (Some chacha_open_max) (Some chacha_tink_ct_max).
   (* aead/subtle.ChaCha20Poly1305: length check then slices (no prefix) *)
   Definition chacha_subtle_enc := na_enc cc_seal chacha_seal_max chacha_subtle_tink_max [].
-  Definition chacha_subtle_dec := na_dec_lenfirst cc_open 12 16 (Some chacha_open_max) [].
+  Definition chacha_subtle_dec := na_dec_lenfirst cc_open 12 16 (Some chacha_open_max) (Some chacha_tink_ct_max) [].
 
   (* aead/xchacha20poly1305 and aead/subtle.XChaCha20Poly1305 *)
   Definition xchacha_enc := na_enc xcc_seal chacha_seal_max xchacha_tink_max.
-  Definition xchacha_dec := na_dec_lenprefix xcc_open 24 16 (Some chacha_open_max).
-  Definition xchacha_subtle_dec := na_dec_lenfirst xcc_open 24 16 (Some chacha_open_max) [].
+  Definition xchacha_dec := na_dec_lenprefix xcc_open 24 16 (Some chacha_open_max) (Some chacha_tink_ct_max).
+  Definition xchacha_subtle_dec := na_dec_lenfirst xcc_open 24 16 (Some chacha_open_max) (Some chacha_tink_ct_max) [].
 End Instances.
 
-(* Length-only prediction of a panic of the nonce-based Decrypt bodies (used for
-   ciphertexts too long to materialise; proved equivalent in AeadFrameProofs) *)
-Definition na_dec_panics (open_max : option N) (pl ivlen taglen : nat) (clen : N) (prefix_ok : bool) : bool :=
-  match open_max with
-  | Some m => prefix_ok && (N.of_nat (pl + ivlen + taglen) <=? clen)
-              && (m <? clen - N.of_nat pl - N.of_nat ivlen)
-  | None => false
-  end.
+(* Length-only prediction for ciphertexts too long to materialise: Some Err /
+   Some Panic when the outcome of the nonce-based Decrypt bodies is determined by
+   the lengths and the prefix test alone, None when it depends on the content
+   (proved in AeadFrameProofs.na_dec_len_only_spec) *)
+Definition na_dec_len_only (open_max ct_max : option N) (pl ivlen taglen : nat) (clen : N) (prefix_ok : bool)
+  : option (outcome unit) :=
+  if negb prefix_ok || (clen <? N.of_nat (pl + ivlen + taglen)) then Some Err
+  else
+    let rest := clen - N.of_nat pl - N.of_nat ivlen in
+    match ct_max with
+    | Some m => if m <? rest then Some Err
+                else match open_max with Some m' => if m' <? rest then Some Panic else None | None => None end
+    | None => match open_max with Some m' => if m' <? rest then Some Panic else None | None => None end
+    end.
